@@ -106,9 +106,11 @@ if (jcol >= LOCOL && jcol <= HICOL)
 #ifdef SLU_MT_VERIF
 	{   /* report the set of columns marked busy for this panel */
 	    int_t vn = 0, vk, *vl = (int_t *) malloc((jcol + 1) * sizeof(int_t));
-	    for (vk = 0; vk < jcol; ++vk) if ( lbusy[vk] == jcol ) vl[vn++] = vk;
-	    SLU_VERIF_EVL("Mark", pnum, vl, vn, jcol, fsupc);
-	    free(vl);
+	    if ( vl ) {
+		for (vk = 0; vk < jcol; ++vk) if ( lbusy[vk] == jcol ) vl[vn++] = vk;
+		SLU_VERIF_EVL("Mark", pnum, vl, vn, jcol, fsupc);
+		free(vl);
+	    }
 	}
 #endif
 			 
